@@ -189,3 +189,44 @@ Proof.
   rewrite Hc in Hr. injection Hr as Ht _. split; [symmetry; exact Ht|].
   exact (proj2 (proj2 (app_history_supply times w tot w' H Hd Hb Hbu Hs))).
 Qed.
+
+(* ---------------------------------------------------------------- C10 over both modules ---- *)
+(* the two begin-blockers never stop a history: whenever the minter's own block sequence succeeds (it does for every validated
+   schedule from genesis, C10_minter_blocks_never_fail_from_genesis) and the distributor world satisfies the invariant of C03,
+   every block of the history returns, the invariant is kept, and after every block the distributor's books equal the main
+   account's balance *)
+From C4E Require Import Books.
+
+Section Halt.
+  Variable bk : Z.
+  Variable Known : dacct -> Prop.
+  Hypothesis Known_bk : forall a, Known a -> da_key a <> bk.
+  Hypothesis key_inj : forall a a', Known a -> Known a' -> da_key a = da_key a' -> da_id a = da_id a'.
+
+  Lemma minted_coins_good denom a : 0 <= denom -> 0 <= a -> good_inflow (minted_coins denom a).
+  Proof.
+    intros Hd Ha. split; [apply minted_coins_wf; exact Hd|]. intros d. rewrite minted_coins_amt. destruct (d =? denom); lia.
+  Qed.
+
+  Theorem app_history_never_halts times : forall w,
+    (exists r, run_blocks (mw_params (aw_minter w)) (mw_state (aw_minter w)) times = Ok r) ->
+    winv bk Known (aw_distr w) -> 0 <= aw_mint_denom w ->
+    exists tot w', app_run w times = Ok (tot, w') /\ winv bk Known (aw_distr w').
+  Proof.
+    induction times as [|now t IH]; intros w [r Hr] Hw Hd; cbn [app_run run_blocks] in *.
+    - exists 0, w. split; [reflexivity|exact Hw].
+    - destruct (mint (mw_params (aw_minter w)) (mw_state (aw_minter w)) now) as [[[a st'] h]| |] eqn:Em; try discriminate.
+      destruct (run_blocks (mw_params (aw_minter w)) st' t) as [[b st'']| |] eqn:Er; try discriminate.
+      destruct (mint_accounting _ _ _ _ _ _ Em) as [Ha _].
+      unfold app_begin_block, begin_block. rewrite Em.
+      set (d1 := dist_inflow (aw_distr w) MAINADDR (minted_coins (aw_mint_denom w) a)).
+      assert (Hw1 : winv bk Known d1) by (apply inflow_keeps_winv; [exact Hw|apply minted_coins_good; assumption]).
+      destruct (block_keeps_books bk Known Known_bk key_inj d1 [] Hw1) as (d' & evs & n & Ed & Hw' & _ & _). rewrite Ed.
+      set (w1 := {| aw_minter := _; aw_distr := d'; aw_mint_denom := aw_mint_denom w |}).
+      destruct (IH w1) as (tot & w2 & E2 & Hw2).
+      + exists (b, st''). exact Er.
+      + exact Hw'.
+      + exact Hd.
+      + rewrite E2. exists (a + tot), w2. split; [reflexivity|exact Hw2].
+  Qed.
+End Halt.
